@@ -17,7 +17,20 @@ from syne_tune.backend.trial_status import Trial
 from syne_tune.config_space import uniform, randint, choice, loguniform, finrange
 from syne_tune.optimizer.scheduler import SchedulerDecision
 
+import signal
+import threading
+
 METRIC, METRIC2, RES, MAXATTR = "loss", "loss2", "epoch", "epochs"
+CALL_TIMEOUT = 60.0
+
+
+class Timeout(Exception):
+    pass
+
+
+def _raise_timeout(*a):
+    raise Timeout()
+
 EPOCH0 = datetime.datetime(2020, 1, 1)
 
 SCHEDULERS = [
@@ -161,11 +174,21 @@ def drive(sch, spec, sign=(1.0, 1.0), between=None):
 
     def guarded(what, f, *a):
         """a scheduler call; an exception ends the scenario and is part of the observable trace"""
+        # watchdog: a scheduler call that does not return within CALL_TIMEOUT seconds is recorded as
+        # a "Timeout" exception (pool workers and twin processes run this in their main thread)
+        use_alarm = threading.current_thread() is threading.main_thread()
+        if use_alarm:
+            old = signal.signal(signal.SIGALRM, _raise_timeout)
+            signal.setitimer(signal.ITIMER_REAL, CALL_TIMEOUT)
         try:
             return True, f(*a)
         except Exception as e:  # noqa
             ev.append(["exception", what, type(e).__name__])
             return False, None
+        finally:
+            if use_alarm:
+                signal.setitimer(signal.ITIMER_REAL, 0)
+                signal.signal(signal.SIGALRM, old)
 
     for _ in range(spec["max_events"]):
         if ev and ev[-1][0] == "exception":
